@@ -5,7 +5,11 @@ A program (JSON-able dict):
   pre:  [ {tgt, kind, time, daemon, hook, cancelled} ]         pre-run events, in scheduling order
   defs: [ {ent, kind, gen, segs: [ {acts: [...], term: [...]} ]} ]
     acts: ["E", tgt, kind, delay_ns, daemon, hook] | ["EP", tgt, kind, back_ns, daemon] | ["X", kind] | ["R", f, v] | ["A", f, g...] |
-          ["L", f, g...] | ["N", f] | ["C", ent] | ["U", ent]
+          ["L", f, g...] | ["N", f] | ["C", ent] | ["U", ent] | ["AH", kind, hook] | ["M", ent, abs(0/1), v]
+      v of R: an int (= "n<int>") or a value token: none | n7 | a<kind>.<x> | p(<i>,<flat>) | l[<flat>,…]   (see `py_val`)
+      AH: add_completion_hook on the most recently created event of that kind (whatever state it is in)
+      M:  entity.level = v / entity.level = (entity.level or 0) + v
+  levels: {ent: int}   initial `level` attribute (absent: None)
     term: ["Y", delay_seconds_float] | ["W", f] | ["Z"]
   end:  int ns | None
   nfut: int
@@ -22,14 +26,79 @@ def delay_ns(d: float) -> int:
     return int(d * 1_000_000_000)
 
 
+EXC_CLASSES = [TimeoutError, ValueError, KeyError, ConnectionError]
+TYPE_ATOMS = [TimeoutError, ValueError, KeyError, StopIteration]
+METRIC_ATTRS = ["level", "inflight", "_crashed", "nosuch"]
+# what a process may find raised at its yield if the engine threw a resolved value (or a class) into it instead of
+# sending it; anything else (the harness's own case timeout, KeyboardInterrupt, GeneratorExit, …) is not caught
+VALUE_EXCS = (TimeoutError, ValueError, KeyError, ConnectionError, StopIteration)
+
+
+def val_tok(v):
+    """value token of a case's resolve action (ints are the legacy spelling of n<int>)"""
+    return f"n{v}" if isinstance(v, int) else str(v)
+
+
+def _flat(tok):
+    if tok == "none":
+        return None
+    if tok[0] == "n":
+        return int(tok[1:])
+    if tok[0] == "a":
+        k, x = (int(t) for t in tok[1:].split("."))
+        if k == 0:
+            return EXC_CLASSES[x % 4](x)            # an exception *instance* used as a plain value
+        if k == 1:
+            return bool(x)
+        if k == 2:
+            return "" if x == 0 else f"s{x}"
+        if k == 3:
+            return x / 2.0
+        if k == 4:
+            return TYPE_ATOMS[x % 4]                # an exception class
+        return [(), frozenset(), {}][x % 3]
+    raise ValueError(tok)
+
+
+def py_val(v):
+    """the Python object a value token stands for"""
+    if isinstance(v, int):
+        return v
+    if v.startswith("p("):
+        i, rest = v[2:-1].split(",", 1)
+        return (int(i), _flat(rest))
+    if v.startswith("l["):
+        inner = v[2:-1]
+        return [_flat(t) for t in inner.split(",")] if inner else []
+    return _flat(v)
+
+
 def fmt_val(v):
     if v is None:
         return "none"
+    if isinstance(v, bool):
+        return f"a1.{int(v)}"
+    if isinstance(v, int):
+        return f"n{v}"
+    if isinstance(v, float):
+        return f"a3.{int(v * 2)}"
+    if isinstance(v, str):
+        return "a2.0" if v == "" else f"a2.{v[1:]}"
+    if isinstance(v, BaseException):
+        return f"a0.{v.args[0] if v.args else '?'}"
+    if isinstance(v, type):
+        return f"a4.{TYPE_ATOMS.index(v)}" if v in TYPE_ATOMS else "a4.?"
     if isinstance(v, tuple) and len(v) == 2:
         return f"p({v[0]},{fmt_val(v[1])})"
+    if isinstance(v, tuple):
+        return "a5.0"
+    if isinstance(v, frozenset):
+        return "a5.1"
+    if isinstance(v, dict):
+        return "a5.2"
     if isinstance(v, list):
         return "l[" + ",".join(fmt_val(x) for x in v) + "]"
-    return f"n{v}"
+    return f"?{type(v).__name__}"
 
 
 class _WarnCounter(logging.Handler):
@@ -72,6 +141,11 @@ class Harness:
             def __init__(self, idx):
                 super().__init__(f"e{idx}")
                 self.idx = idx
+                # attributes a MetricBreakpoint can watch
+                lv = (prog.get("levels") or {}).get(str(idx))
+                self.level = (float(lv) if prog.get("lvl_float") else lv) if lv is not None else None
+                self.inflight = 0        # generator processes of this entity that have started and not finished
+                self._crashed = False
 
             def handle_event(self, event):
                 kind = int(event.event_type[1:])
@@ -88,6 +162,7 @@ class Harness:
                 pid = H.npid
                 H.npid += 1
                 if d["gen"]:
+                    self.inflight += 1
                     return self._gen(d, pid, event)
                 evs = H.run_acts(self, d["segs"][0]["acts"])
                 H.emit_log(f"F {self.now.nanoseconds} {pid}")
@@ -109,13 +184,23 @@ class Harness:
                         now = self.now.nanoseconds
                         tag = H.next_tag()
                         H.trace.append(f"y {tag} {pid} {now + delay_ns(term[1])} {1 if event.daemon else 0} {now} {self.idx}")
-                        sent = yield (term[1], pending) if (pending or d.get("reuse_list")) else term[1]
-                        H.emit_log(f"R {self.now.nanoseconds} {pid} {fmt_val(sent)} {tag}")
+                        # the process writes down what the yield expression gave it, or what it raised
+                        try:
+                            sent = yield (term[1], pending) if (pending or d.get("reuse_list")) else term[1]
+                            got = fmt_val(sent)
+                        except VALUE_EXCS as exc:
+                            got = "raised:" + fmt_val(exc)
+                        H.emit_log(f"R {self.now.nanoseconds} {pid} {got} {tag}")
                     elif term[0] == "W":
                         H.trace.append(f"w {pid} {term[1]} {1 if event.daemon else 0}")
-                        sent = yield H.fut(term[1])
-                        H.emit_log(f"R {self.now.nanoseconds} {pid} {fmt_val(sent)} 0")
+                        try:
+                            sent = yield H.fut(term[1])
+                            got = fmt_val(sent)
+                        except VALUE_EXCS as exc:
+                            got = "raised:" + fmt_val(exc)
+                        H.emit_log(f"R {self.now.nanoseconds} {pid} {got} 0")
                     else:
+                        self.inflight -= 1
                         H.emit_log(f"F {self.now.nanoseconds} {pid}")
                         return pending
                 return None
@@ -145,6 +230,7 @@ class Harness:
         self.last_epoch[kind] = self.epoch
         if hook:
             ev.add_completion_hook(self.make_hook(hook))
+            self.trace.append(f"h {tag} {hook}")
         return ev
 
     def make_hook(self, hk):
@@ -181,9 +267,19 @@ class Harness:
                     # a handle from before a reset() refers to an event of the discarded heap; its tag may
                     # have been handed on to the replayed copy, which this cancel() does not touch
                     self.trace.append(f"x {p[1]}" if self.last_epoch.get(a[1], 0) == self.epoch else f"xo {p[1]}")
+            elif op == "AH":
+                p = self.last_kind.get(a[1])
+                if p is not None:
+                    p[0].add_completion_hook(self.make_hook(a[2]))
+                    # (a handle from before a reset() refers to an event of the discarded heap)
+                    self.trace.append(f"h {p[1]} {a[2]}" if self.last_epoch.get(a[1], 0) == self.epoch else f"ho {p[1]} {a[2]}")
+            elif op == "M":
+                e = self.ents[a[1]]
+                v = a[3] if a[2] else (e.level or 0) + a[3]
+                e.level = float(v) if self.prog.get("lvl_float") else v
             elif op == "R":
-                self.trace.append(f"r {a[1]} {a[2]}")
-                self.fut(a[1]).resolve(a[2])
+                self.trace.append(f"r {a[1]} {val_tok(a[2])}")
+                self.fut(a[1]).resolve(py_val(a[2]))
             elif op == "A":
                 self.trace.append("a " + " ".join(str(x) for x in a[1:]))
                 self.futs[a[1]] = self.any_of(*[self.fut(g) for g in a[2:]])
@@ -250,6 +346,22 @@ class Harness:
         for tag, t, tgt, kind, dm in self.pre_specs:
             self.trace.append(f"c {tag} {t} {tgt} {kind} {1 if dm else 0} 0")
 
+    def rerun(self):
+        """control.reset() after a completed run, then run() again, recorded as a run of its own: the replayed
+        pre-run events (same tags: the metadata is copied) are the creations of the new run, the harness's
+        counters start over.  Only for stateless programs (`make_stateless`)."""
+        self.sim.control.reset()
+        self.log.clear()
+        self.trace.clear()
+        self.tagc = len(self.pre_specs)
+        self.npid = 0
+        self.last_kind.clear()
+        for e in self.ents:
+            e.inflight = 0
+        for tag, t, tgt, kind, dm in self.pre_specs:
+            self.trace.append(f"c {tag} {t} {tgt} {kind} {1 if dm else 0} 0")
+        return self.run()
+
     def run(self, driver=None):
         """driver(sim) performs the run (default: sim.run()); returns transcript"""
         lg = logging.getLogger("happysimulator.core.simulation")
@@ -276,8 +388,26 @@ class Harness:
         return self.log + [self.end_line]
 
 
+def make_stateless(prog):
+    """entity-side state survives reset(): keep only programs whose entities have none (no futures, crash
+    flags, event handles, pre-created events), and pre-run events that reset() replays faithfully"""
+    for p in prog["pre"]:
+        p["hook"] = 0
+        p["cancelled"] = False
+    prog["defs"] = [d for d in prog["defs"] if not any(
+        a[0] in ("R", "A", "L", "N", "C", "U") for s in d["segs"] for a in s["acts"]) and not any(
+        s["term"][0] == "W" for s in d["segs"])]
+    # handles to events (for cancel) are entity state too, and the replayed pre-run events are
+    # new objects the scripted entities hold no handle to
+    prog["defs"] = [dict(d, segs=[dict(s, acts=[a for a in s["acts"] if a[0] not in ("X", "RH", "EA", "AH")]) for s in d["segs"]])
+                    for d in prog["defs"]]
+    prog.pop("held", None)   # pre-created events held by entities are entity state as well
+
+
 def program_lines(prog):
     lines = [f"ents {prog['ents']}"]
+    for x, v in sorted((prog.get("levels") or {}).items()):
+        lines.append(f"lvl {x} {v}")
     for p in prog["pre"]:
         lines.append(f"pre {p['tgt']} {p['kind']} {p['time']} {1 if p['daemon'] else 0} {p['hook']} {1 if p.get('cancelled') else 0}")
     for hd in prog.get("held", []):
@@ -291,6 +421,8 @@ def program_lines(prog):
                     acts.append(f"E {a[1]} {a[2]} {a[3]} {1 if a[4] else 0} {a[5]}")
                 elif a[0] in ("EP", "EA"):
                     acts.append(f"{a[0]} {a[1]} {a[2]} {a[3]} {1 if a[4] else 0}")
+                elif a[0] == "R":
+                    acts.append(f"R {a[1]} {val_tok(a[2])}")
                 else:
                     acts.append(" ".join(str(x) for x in a))
             t = seg["term"]
